@@ -1786,6 +1786,15 @@ def run_cases(c, S, cases, nproc=8, chunk=12, budget=45):
                 c.corr_break("the check's worker raised a Python exception on cfg %s (see stderr)" % cfg_key(cfg)[:200])
                 return
             key = "crash:" + cfg["integrator"]
+            if cfg["integrator"] == "trace" and any(op in ("add", "add2", "remove_last", "remove_mid") for op in cfg.get("pre", []) + cfg.get("post", [])):
+                # C05-N17 ONLY if the history crashes all by itself: the same build / advance / edits / continuation on the
+                # source alone, with no save, copy or load anywhere
+                def source_only(_):
+                    a_ = build_sim(rb, cfg); advance(a_, cfg["save_after"]); S.pre_save_edit(a_, cfg)
+                    apply_ops(a_, cfg.get("post", [])); advance(a_, k)
+                    return True
+                if not forked(source_only, None)[0]:
+                    key = "C05-N17:trace-add-remove-between-steps-crashes"
             if any(op.startswith("switchraw:") for op in cfg.get("pre", []) + cfg.get("post", [])):
                 # C05-N11 (stale BS ode of the wrong length after a raw integrator switch + add/remove corrupts memory)
                 # ONLY if the same history with reset_integrator() after each assignment runs through
